@@ -72,9 +72,15 @@ Definition lower_spec (s : bytes) : bytes := map ascii_lower s.
    where this occurrence starts and ends; otherwise nil.  init specifies where
    to start the search; its default value is 1 and can be negative."
    (init beyond len+1 finds nothing; 0 and too-negative values start at 1.) *)
-Definition occurs_at (s p : bytes) (k : Z) : bool :=   (* p occurs in s at 1-based position k *)
-  (1 <=? k) && (k + len p - 1 <=? len s) &&
-  forallb (fun d => char_at s (k + d) =? char_at p (1 + d)) (zseq 0 (length p)).
+Fixpoint bytes_eqb (a b : bytes) : bool :=
+  match a, b with
+  | [], [] => true
+  | x :: a', y :: b' => (x =? y) && bytes_eqb a' b'
+  | _, _ => false
+  end.
+(* p occurs in s at 1-based position k: the |p| characters of s from k on are p *)
+Definition occurs_at (s p : bytes) (k : Z) : bool :=
+  (1 <=? k) && bytes_eqb (firstn (length p) (skipn (Z.to_nat (k - 1)) s)) p.
 
 Definition find_spec (s p : bytes) (init : option Z) : option (Z * Z) :=
   let l := len s in
